@@ -18,6 +18,7 @@
 import json
 import os
 import random
+from concurrent.futures import ThreadPoolExecutor
 
 import vlib
 
@@ -109,43 +110,69 @@ def _run(rep, tier, replay):
     if replay:
         return run_replay(rep, wd, bins, devs, replay)
 
+    # The TLC jobs of steps 1-3 are independent: they run concurrently (a few workers each), the shell leg
+    # (mostly waiting on sockets) runs beside everything; results are applied to the report in order.
+    pool = ThreadPoolExecutor(max_workers=6)
+    shell_future = pool.submit(shell_run, wd, bins, devs, seed, 6 if thorough else 2, 40 if thorough else 24)
+    sim_future = pool.submit(sim_job, wd, bins, devs, seed, thorough)
+    trace_future = pool.submit(trace_job, wd, bins, devs, seed, thorough)
+    tw = 5 if thorough else 3
+
     # ---- 1. design level, no deviation: (family, inputs, time)
     # (when no deviation is open, step 3 is this very check on the same universes)
+    mc_jobs = []
     if devs:
         mc = [("affinity", 5, 3), ("limits", 4, 3), ("pp", 5, 3)] if thorough else [("affinity", 4, 2), ("limits", 3, 1), ("pp", 3, 2)]
         for fam, ni, nt in mc:
-            r = vlib.tlc("UdpFlows", write_cfg(wd, "mc_%s.cfg" % fam, fam, ni, nt, []), PID, workers=workers,
-                         timeout=3000 if thorough else 600)
-            rep.add_tlc(r)
-            if r["violated"]:
-                rep.violation("spec:" + r["violated"], "the specification itself violates %s (family %s)" % (r["violated"], fam),
-                              r["out"], name="spec_%s.txt" % fam)
+            mc_jobs.append((fam, pool.submit(vlib.tlc, "UdpFlows", write_cfg(wd, "mc_%s.cfg" % fam, fam, ni, nt, []), PID,
+                                             workers=tw, timeout=3000 if thorough else 600)))
 
     # ---- 2. open deviations: each must still break exactly the sub-property its finding names
     props = list(PROPS)
+    dev_jobs = []
     for d in devs:
         broken, modulo, fid = DEV_BREAKS[d]
-        rd = vlib.tlc("UdpFlows", write_cfg(wd, "dev_%s.cfg" % d, "affinity", 5 if thorough else 4, 3, [d], props=[broken]), PID,
-                      workers=workers, timeout=900)
-        rep.add_tlc(rd)
-        if rd["violated"] != broken:
-            raise vlib.ToolError("deviation %s no longer violates %s in the model (got %s)" % (d, broken, rd["violated"]))
-        rep.known_finding_seen(fid)
-        vlib.log("deviation %s: TLC counterexample to %s as expected" % (d, broken))
+        dev_jobs.append((d, pool.submit(vlib.tlc, "UdpFlows",
+                                        write_cfg(wd, "dev_%s.cfg" % d, "affinity", 5 if thorough else 4, 3, [d], props=[broken]),
+                                        PID, workers=2, timeout=900)))
         props = [modulo if p == broken else p for p in props]
 
     # ---- 3. the spec as the code behaves (open deviations on): model-checked against everything the findings do
     #         not excuse, and at the same time printed transition by transition and executed on the real manager
     gen = [("affinity", 5, 2), ("limits", 4, 2), ("pp", 5, 2)] if thorough else [("affinity", 4, 2), ("limits", 3, 2), ("pp", 4, 2)]
-    cover = {}
-    total_edges = total_nodes = total_beh = total_steps = 0
-    exhaustive = True
-    for k, (fam, ni, nt) in enumerate(gen):
+
+    def gen_job(k, fam, ni, nt):
         path = os.path.join(wd, "edges_%s.ndjson" % fam)
         with open(path, "w") as f:
             g = vlib.tlc("UdpFlows", write_cfg(wd, "gen_%s.cfg" % fam, fam, ni, nt, devs, emit="edges", props=props), PID,
-                         workers=workers, timeout=3000, want_replay=True,
+                         workers=tw, timeout=3000, want_replay=True,
                          replay_sink=lambda o: f.write(json.dumps(o, separators=(",", ":")) + "\n"))
+        if g["violated"] or g["n_replays"] == 0:
+            return g, None
+        return g, replay_run(bins, path, seed * 3 + k)
+
+    gen_jobs = [(k, fam, pool.submit(gen_job, k, fam, ni, nt)) for k, (fam, ni, nt) in enumerate(gen)]
+
+    for fam, fut in mc_jobs:
+        r = fut.result()
+        rep.add_tlc(r)
+        if r["violated"]:
+            rep.violation("spec:" + r["violated"], "the specification itself violates %s (family %s)" % (r["violated"], fam),
+                          r["out"], name="spec_%s.txt" % fam)
+    for d, fut in dev_jobs:
+        broken, modulo, fid = DEV_BREAKS[d]
+        rd = fut.result()
+        rep.add_tlc(rd)
+        if rd["violated"] != broken:
+            raise vlib.ToolError("deviation %s no longer violates %s in the model (got %s)" % (d, broken, rd["violated"]))
+        rep.known_finding_seen(fid)
+        vlib.log("deviation %s: TLC counterexample to %s as expected" % (d, broken))
+
+    cover = {}
+    total_edges = total_nodes = total_beh = total_steps = 0
+    exhaustive = True
+    for k, fam, fut in gen_jobs:
+        g, res = fut.result()
         rep.add_tlc(g)
         if g["violated"]:
             rep.violation("spec:" + g["violated"],
@@ -156,7 +183,7 @@ def _run(rep, tier, replay):
             raise vlib.ToolError("generator run for %s printed nothing" % fam)
         if g["queue"] != 0:
             exhaustive = False
-        summ = replay_file(rep, bins, path, seed * 3 + k, "edges_%s" % fam)
+        summ = replay_apply(rep, res, "edges_%s" % fam)
         if summ["unreachable"] or summ["edges"] != g["n_replays"]:
             raise vlib.ToolError("replayer lost transitions: %s" % {x: summ[x] for x in ("edges", "unreachable", "nodes")})
         total_edges += summ["replayed"]
@@ -167,17 +194,11 @@ def _run(rep, tier, replay):
         vlib.log("replay %s: %d states, %d transitions executed on the real UdpManager, %d skipped below a failure, classes %s"
                  % (fam, summ["nodes"], summ["replayed"], summ["skipped_below_failure"], summ["classes"]))
 
-    # ---- 4. S->I sampled: long random behaviours of the big universe
-    nsim = 400 if thorough else 25
-    simlen = (24, 8) if thorough else (16, 6)
-    path = os.path.join(wd, "behaviours.ndjson")
-    with open(path, "w") as f:
-        g = vlib.tlc("UdpFlows", write_cfg(wd, "sim.cfg", "all", simlen[0], simlen[1], devs, emit="hist"), PID, workers=4,
-                     timeout=900, simulate="num=%d" % nsim, depth=simlen[0] + simlen[1] + 2, want_replay=True,
-                     replay_sink=lambda o: f.write(json.dumps(o, separators=(",", ":")) + "\n"))
+    # ---- 4. S->I sampled: long random behaviours of the big universe (job started at the beginning)
+    g, simout = sim_future.result()
     if g["violated"] or g["n_replays"] == 0:
         raise vlib.ToolError("simulation generator failed (%s, %d behaviours)" % (g["violated"], g["n_replays"]))
-    summ = replay_file(rep, bins, path, seed * 3 + 1, "behaviours")
+    summ = replay_apply(rep, simout, "behaviours")
     total_beh += summ["behaviours"]
     total_steps += summ["behaviour_steps"]
     merge_cover(cover, summ["cover"])
@@ -187,43 +208,26 @@ def _run(rep, tier, replay):
     if missing and not rep.violations:
         raise vlib.ToolError("vacuous generator: never produced %s" % missing)
 
-    # ---- 5. I->S: seeded random runs of the real manager validated by TLC
-    runs = 1500 if thorough else 250
-    steps = 120 if thorough else 60
-    trace = os.path.join(wd, "trace.ndjson")
-    out = vlib.run_harness(bins["drive_udp"], ["--seed", str(seed), "--runs", str(runs), "--steps", str(steps), "--out", trace],
-                           timeout=900)
-    dsum = [o for o in out if o.get("kind") == "summary"]
-    if not dsum:
-        raise vlib.ToolError("drive_udp produced no summary")
-    dsum = dsum[0]
-    for v in out:
+    # ---- 5. I->S: seeded random runs of the real manager validated by TLC (job started at the beginning)
+    tj = trace_future.result()
+    dsum, tr = tj["dsum"], tj["tr"]
+    for v in tj["out"]:
         if v.get("kind") == "violation":
             rep.violation(v["class"], json.dumps(v["detail"])[:250], v, name="drive_%s.json" % v["class"].replace(":", "_"))
-    tcfg = write_trace_cfg(wd, devs)
-    tr = vlib.tlc_trace("Trace_UdpFlows", tcfg, PID, trace, timeout=1500 if thorough else 600)
     rep.add_tlc(tr)
     if not tr["accepted"]:
-        record_trace_rejection(rep, tr, trace, "trace")
+        record_trace_rejection(rep, tr, tj["trace"], "trace")
     else:
         rep.cov["traces_validated_against_impl"] += dsum["runs"]
+        if tj["canary_problem"]:
+            raise vlib.ToolError(tj["canary_problem"])
     vlib.log("trace validation: %d runs, %d events, accepted=%s (%.1fs)" % (dsum["runs"], dsum["events"], tr["accepted"], tr["wall_s"]))
     merge_cover(cover, dsum.get("cover", {}))
-    rep.add_samples([json.dumps(s) for s in dsum.get("samples", [])], 2)
+    rep.add_samples([json.dumps(s_) for s_ in dsum.get("samples", [])], 2)
 
-    # canary: the binding must reject a corrupted trace exactly at the corrupted event (self-test of the
-    # trace specification; only meaningful on a trace that is accepted as recorded)
-    if tr["accepted"]:
-        canary = os.path.join(wd, "canary.ndjson")
-        where = corrupt_trace(trace, canary, seed)
-        cr = vlib.tlc_trace("Trace_UdpFlows", tcfg, PID, canary, timeout=600)
-        if cr["accepted"] or cr["consumed"] != where:
-            raise vlib.ToolError("canary: corrupted trace (event %d) was not rejected there (accepted=%s consumed=%s)"
-                                 % (where, cr["accepted"], cr["consumed"]))
-        vlib.log("canary: corrupted event %d rejected (consumed %s)" % (where, cr["consumed"]))
-
-    # ---- 6. shell leg: real worker, UDP listener, mock clients and backends, lock step
-    shell_leg(rep, wd, bins, devs, seed, cover, runs=6 if thorough else 2, steps=40 if thorough else 24)
+    # ---- 6. shell leg: real worker, UDP listener, mock clients and backends, lock step (started at the beginning)
+    shell_apply(rep, shell_future.result(), cover)
+    pool.shutdown()
 
     rep.cov["traces_validated_against_impl"] += total_edges + total_beh
     rep.cov["evaluations"] += total_edges + total_steps + dsum["events"]
@@ -265,21 +269,17 @@ CHECK_DEADLOCK FALSE
 """
 
 
-def shell_leg(rep, wd, bins, devs, seed, cover, runs, steps):
+def shell_run(wd, bins, devs, seed, runs, steps):
     """A real sozu worker with a UDP listener; this process plays 3 clients and 2 backends in lock step
     (cluster reconfiguration incl. affinity flips, cap changes, routing removal); who received what is
     validated by TLC against Trace_UdpShell.tla. 'Nothing arrived' is only concluded after 2 s."""
-    sbin = bins["shell_udp"]
     trace = os.path.join(wd, "shell.ndjson")
-    out = vlib.run_harness(sbin, ["--seed", str(seed), "--runs", str(runs), "--steps", str(steps), "--quiet-ms", "2000", "--flips", "1",
-                                  "--out", trace], timeout=1500)
+    out = vlib.run_harness(bins["shell_udp"], ["--seed", str(seed), "--runs", str(runs), "--steps", str(steps), "--quiet-ms", "2000",
+                                               "--flips", "1", "--out", trace], timeout=1500)
     summ = [o for o in out if o.get("kind") == "summary"]
     if not summ:
         raise vlib.ToolError("shell_udp produced no summary")
     summ = summ[0]
-    for v in out:
-        if v.get("kind") == "violation":
-            rep.violation(v["class"], "the worker thread panicked: %s" % v["detail"].get("panic", "")[:200], v, name="shell_panic.json")
     props = ["S_C19_Sticky", "S_C19_Isolation", "S_C19_Integrity", "S_C19_Cap", "S_C19_Teardown"]
     for d in devs:
         broken, modulo, _ = DEV_BREAKS[d]
@@ -288,12 +288,9 @@ def shell_leg(rep, wd, bins, devs, seed, cover, runs, steps):
     with open(cfg, "w") as f:
         f.write(SHELL_CFG % {"dev": tla_set(devs), "props": " ".join(props)})
     tr = vlib.tlc_trace("Trace_UdpShell", cfg, PID, trace, timeout=600)
-    rep.add_tlc(tr)
-    if not tr["accepted"]:
-        record_trace_rejection(rep, tr, trace, "shell")
-    else:
-        rep.cov["traces_validated_against_impl"] += summ["runs"]
-        # canary: a datagram observed at the other backend must be rejected
+    canary_problem = None
+    if tr["accepted"]:
+        # canary: a datagram of an established flow observed at the other backend must be rejected
         lines = open(trace).read().splitlines()
         cands, seen = [], set()
         for i, l in enumerate(lines):
@@ -302,7 +299,7 @@ def shell_leg(rep, wd, bins, devs, seed, cover, runs, steps):
                 seen = set()
             elif ev["ev"] == "c2b" and ev["obs"]["got"] == 1:
                 if ev["obs"]["up"] in seen:
-                    cands.append(i)          # a datagram on an already established flow
+                    cands.append(i)
                 seen.add(ev["obs"]["up"])
         if cands:
             i = cands[len(cands) // 2]
@@ -313,8 +310,23 @@ def shell_leg(rep, wd, bins, devs, seed, cover, runs, steps):
             with open(canary, "w") as f:
                 f.write("\n".join(lines) + "\n")
             cr = vlib.tlc_trace("Trace_UdpShell", cfg, PID, canary, timeout=600)
-            if cr["accepted"]:
-                raise vlib.ToolError("shell canary: a datagram moved to the other backend (event %d) was accepted" % i)
+            if cr["accepted"] or cr["consumed"] != i:
+                canary_problem = "shell canary: a datagram moved to the other backend (event %d) was not rejected there (consumed %s)" % (i, cr["consumed"])
+    return {"out": out, "summ": summ, "tr": tr, "trace": trace, "canary_problem": canary_problem}
+
+
+def shell_apply(rep, res, cover):
+    summ, tr = res["summ"], res["tr"]
+    for v in res["out"]:
+        if v.get("kind") == "violation":
+            rep.violation(v["class"], "the worker thread panicked: %s" % v["detail"].get("panic", "")[:200], v, name="shell_panic.json")
+    rep.add_tlc(tr)
+    if not tr["accepted"]:
+        record_trace_rejection(rep, tr, res["trace"], "shell")
+    else:
+        rep.cov["traces_validated_against_impl"] += summ["runs"]
+        if res["canary_problem"]:
+            raise vlib.ToolError(res["canary_problem"])
     merge_cover(cover, {"shell:" + k: v for k, v in summ["cover"].items()})
     rep.extra["shell_runs"] = summ["runs"]
     rep.extra["shell_events"] = summ["events"]
@@ -322,8 +334,53 @@ def shell_leg(rep, wd, bins, devs, seed, cover, runs, steps):
     vlib.log("shell leg: %d runs, %d events, accepted=%s, cover %s" % (summ["runs"], summ["events"], tr["accepted"], summ["cover"]))
 
 
-def replay_file(rep, bins, path, seed, tag):
-    out = vlib.run_harness(bins["replay_udp"], ["--seed", str(seed), "--threads", "12"], stdin_path=path, timeout=1800)
+def sim_job(wd, bins, devs, seed, thorough):
+    nsim = 400 if thorough else 25
+    simlen = (24, 8) if thorough else (16, 6)
+    path = os.path.join(wd, "behaviours.ndjson")
+    with open(path, "w") as f:
+        g = vlib.tlc("UdpFlows", write_cfg(wd, "sim.cfg", "all", simlen[0], simlen[1], devs, emit="hist"), PID, workers=3,
+                     timeout=900, simulate="num=%d" % nsim, depth=simlen[0] + simlen[1] + 2, want_replay=True,
+                     replay_sink=lambda o: f.write(json.dumps(o, separators=(",", ":")) + "\n"))
+    if g["violated"] or g["n_replays"] == 0:
+        return g, None
+    return g, replay_run(bins, path, seed * 3 + 1)
+
+
+def trace_job(wd, bins, devs, seed, thorough):
+    runs = 1500 if thorough else 250
+    steps = 120 if thorough else 60
+    trace = os.path.join(wd, "trace.ndjson")
+    out = vlib.run_harness(bins["drive_udp"], ["--seed", str(seed), "--runs", str(runs), "--steps", str(steps), "--out", trace],
+                           timeout=900)
+    dsum = [o for o in out if o.get("kind") == "summary"]
+    if not dsum:
+        raise vlib.ToolError("drive_udp produced no summary")
+    tcfg = write_trace_cfg(wd, devs)
+    tr = vlib.tlc_trace("Trace_UdpFlows", tcfg, PID, trace, timeout=1500 if thorough else 600)
+    # canary: the binding must reject a corrupted trace exactly at the corrupted event (self-test of the
+    # trace specification; only meaningful on a trace that is accepted as recorded)
+    canary_problem = None
+    if tr["accepted"]:
+        canary = os.path.join(wd, "canary.ndjson")
+        where = corrupt_trace(trace, canary, seed)
+        ccfg = os.path.join(wd, "canary.cfg")
+        with open(ccfg, "w") as f:
+            f.write(open(tcfg).read())
+        cr = vlib.tlc_trace("Trace_UdpFlows", ccfg, PID, canary, timeout=600)
+        if cr["accepted"] or cr["consumed"] != where:
+            canary_problem = ("canary: corrupted trace (event %d) was not rejected there (accepted=%s consumed=%s)"
+                              % (where, cr["accepted"], cr["consumed"]))
+        else:
+            vlib.log("canary: corrupted event %d rejected (consumed %s)" % (where, cr["consumed"]))
+    return {"out": out, "dsum": dsum[0], "tr": tr, "trace": trace, "canary_problem": canary_problem}
+
+
+def replay_run(bins, path, seed):
+    return vlib.run_harness(bins["replay_udp"], ["--seed", str(seed), "--threads", "8"], stdin_path=path, timeout=1800)
+
+
+def replay_apply(rep, out, tag):
     summ = [o for o in out if o.get("kind") == "summary"]
     if not summ:
         raise vlib.ToolError("replay_udp produced no summary")
